@@ -1701,6 +1701,26 @@ class FileHashStore(HashStore):
             )
             self.fhs_logger.warning(warn_msg)
 
+        except OSError as ose:
+            # The reference files could not be inspected (ex. I/O error). Still remove what
+            # tagging may have written so that the pid is not left half-tagged.
+            self._check_object_locked_cids(cid)
+            pid_refs_path = self._get_hashstore_pid_refs_path(pid)
+            if os.path.isfile(pid_refs_path):
+                self._mark_pid_refs_file_for_deletion(
+                    pid, untag_obj_delete_list, pid_refs_path
+                )
+            cid_refs_path = self._get_hashstore_cid_refs_path(cid)
+            self._remove_pid_and_handle_cid_refs_deletion(
+                pid, untag_obj_delete_list, cid_refs_path
+            )
+            self._delete_marked_files(untag_obj_delete_list)
+            warn_msg = (
+                f"Unable to inspect refs files for pid: {pid}, removed what could be removed."
+                f" Additional info: {ose}"
+            )
+            self.fhs_logger.warning(warn_msg)
+
     def _put_metadata(
         self, metadata: Union[str, bytes], pid: str, metadata_doc_name: str
     ) -> Path:
